@@ -10,6 +10,7 @@
 From WG Require Import Base.Prelude Gen.Constants.
 From WG Require Import Ratelimit.Model Ratelimit.Spec Ratelimit.Proofs Ratelimit.Conc.
 From WG Require Ratelimit.Collector.
+From WG Require Import Ratelimit.ConcVariants.
 Local Open Scope Z_scope.
 
 (* The numbers the property text names, as the code has them now: 20 per
@@ -96,6 +97,35 @@ Theorem C19_conc_collect_race_refuted :
     ~ window_envelope true (init 0 addrs) pre w a.
 Proof. exact conc_collect_race_refuted. Qed.
 Print Assumptions C19_conc_collect_race_refuted.
+
+(* What the all-schedules theorem depends on, at lock-section granularity
+   (Ratelimit/ConcVariants.v): the code's variant of the refined step function
+   is the model of the theorem ... *)
+Theorem C19_variant_code_is_model : forall sched s,
+  vs (vrun Recheck s (map lift sched)) = crun true (vs s) sched.
+Proof. exact vrun_is_crun. Qed.
+Print Assumptions C19_variant_code_is_model.
+
+(* ... a caller that finds somebody else's entry at its second look must be
+   charged: if it returns true without charging, 6 are admitted at one instant
+   (4 with the code) ... *)
+Theorem C19_variant_recheck_admit_refuted :
+  let s := vs (vrun RecheckAdmit (vinit 0 (repeat addr_x 6)) free_schedule) in
+  admitted_at addr_x 0 (log s) = 6 /\ clock s = 0 /\ ~ (6 * cost <= maxTokens + 0) /\
+  admitted_at addr_x 0 (log (vs (vrun Recheck (vinit 0 (repeat addr_x 6)) free_schedule))) = 4.
+Proof. exact recheck_admit_refuted. Qed.
+Print Assumptions C19_variant_recheck_admit_refuted.
+
+(* ... and a collection pass must be one section: if idle entries are noted in
+   one section and deleted in a later one, an entry used in between is
+   forgotten while busy: 8 admitted at one instant (4 with the code). *)
+Theorem C19_variant_split_collect_refuted :
+  let t := gcTime + 1 in
+  admitted_at addr_x t (log (vs (vrun Recheck (vinit 0 split_pool) (split_schedule true)))) = 8 /\
+  ~ (8 * cost <= maxTokens + 0) /\
+  admitted_at addr_x t (log (vs (vrun Recheck (vinit 0 split_pool) (split_schedule false)))) = 4.
+Proof. exact split_collect_refuted. Qed.
+Print Assumptions C19_variant_split_collect_refuted.
 
 (* Every call returns: the collector goroutine (ticker, cleanup under the table
    lock) and a caller whose insert makes the table non-empty (blocking send on
